@@ -244,12 +244,14 @@ def conc_stream(which, klass=0, scen_fn=None, tag="c"):
     return run
 
 
-def big_stream(prop):
-    """Implementation-only stream of very long strings (up to 9 MiB; sizes around every block capacity on the
-    way): property oracles and block audit, no model comparison (the driver does not replay megabytes)."""
+def big_stream(prop, mode="big"):
+    """Implementation-only streams: `big` = very long strings (up to 9 MiB; sizes around every block capacity
+    on the way), `longdoc` = serialised documents with more entries than any pre-sizing or growth threshold
+    of the tables (7 300 ... 70 000 strings).  Property oracles, block audit and the self-consistency sweep,
+    no model comparison (the driver does not replay megabytes)."""
     def run(ctx):
-        name = "seq-big"
-        prefix = os.path.join(ctx["work"], f"big-{ctx['seed']}")
+        name = f"seq-{mode}"
+        prefix = os.path.join(ctx["work"], f"{mode}-{ctx['seed']}")
         res = {"name": name, "I": [], "M": [], "stats": {}, "samples": []}
         tier = "thorough" if (ctx["tier"] == "thorough" or ctx.get("search")) else "quick"
         for ext in ("ops", "impl", "oracle", "stats"):
@@ -257,7 +259,7 @@ def big_stream(prop):
                 os.remove(f"{prefix}.{ext}")
             except FileNotFoundError:
                 pass
-        rc, out = sh([os.path.join(BIN, "seq"), "big", tier, str(ctx["seed"]), prefix], timeout=3600)
+        rc, out = sh([os.path.join(BIN, "seq"), mode, tier, str(ctx["seed"]), prefix], timeout=3600)
         res["stats"] = read_json(prefix + ".stats", {}) or {}
         if rc != 0:
             res["M"].append({"kind": "harness run", "what": f"{name}: harness exited with {rc}", "log": out[-500:]})
@@ -268,9 +270,9 @@ def big_stream(prop):
             if parts[0] != prop and not body.startswith("process-abort") and not body.startswith("fault-in-"):
                 continue
             fp = body.split(" :: ")[0]
-            res["I"].append({"stream": "seq:big", "fingerprint": fp.replace(" ", "_"), "what": body, "ops_file": prefix + ".ops"})
+            res["I"].append({"stream": f"seq:{mode}", "fingerprint": fp.replace(" ", "_"), "what": body, "ops_file": prefix + ".ops"})
         return res
-    run.__name__ = "seq_big"
+    run.__name__ = f"seq_{mode}"
     return run
 
 
@@ -381,7 +383,7 @@ PROPS = {
         "assumptions": [],
     },
     "C15": {
-        "streams": [seq_stream("docs", "C15")],
+        "streams": [seq_stream("docs", "C15"), big_stream("C15", "longdoc")],
         "trusted_base": SEQ_TRUST + ["serde visitor semantics of HashMap<String,K> (last value wins) and NonZero range checks, as modelled"],
         "assumptions": [],
     },
